@@ -87,6 +87,23 @@ def c14(rep, tier):
             L2.check(ln2 == len(d2) and r2 is not None and spec.token_of(spec.rules[r2]) == 'ID', 'spelling %r + identifier character' % s,
                      'maximal munch: one ID', 'keyword prefix is split off an identifier', 'Compiler/src/lexer.l')
 
+    # infinite token kinds: the union of the rules of that kind spells exactly the documented regular language
+    pats = {}
+    for ln in open(os.path.join(VERIF, 'spec', 'token_patterns.tsv')):
+        if ln.startswith('#') or not ln.strip():
+            continue
+        t, rx = ln.rstrip('\n').split('\t')
+        pats[t] = rx
+    for t, rx in pats.items():
+        idxs = [i for i, r in enumerate(spec.rules) if spec.token_of(r) == t]
+        if not idxs:
+            L2.violation('token kind %s' % t, 'no rule produces %s' % t, 'Compiler/src/lexer.l')
+            continue
+        union = '|'.join('(%s)' % spec.rules[i]['pattern'] for i in idxs)
+        ok, wit = lexspec.dfa_equal(lexspec.single_dfa(spec, union), lexspec.single_dfa(spec, rx))
+        L2.check(ok, 'pattern of %s' % t, 'the rule(s) spell exactly the documented form %s' % rx,
+                 'the lexical form of %s differs from the documented %s, e.g. on %r' % (t, rx, wit.decode('latin1') if wit is not None else ''),
+                 'Compiler/src/lexer.l:%d' % spec.rules[idxs[0]]['line'], witness={'input': wit.decode('latin1')} if wit is not None else None)
     L3 = rep.rule('C14.L3', 'every rule either skips (whitespace, comment only) or returns exactly one token of an existing kind', floor=39)
     for i, r in enumerate(spec.rules):
         tok = spec.token_of(r)
@@ -373,6 +390,18 @@ def c15(rep, tier):
         ok = fr is not None and fr.get('d') == main['d'] and okg
         why = 'file_request = %s, guarded by !files.contains(main): %s' % (show(fr) if fr else None, okg)
     I1.check(ok, 'scan: missing main', 'errors += {MAIN_FILE_NOT_FOUND, ..., file_request = main} when !files.contains(main)', why, W % scan['loc'][1])
+    for fq in ('Theo::scan', 'Theo::parse'):
+        fn_ = sfacts.fn(fq)
+        gg = M.cfg(fn_)
+        fparam = fn_['params'][0]
+        for evx in gg.calls():
+            e = evx.e
+            if is_call(e, '::operator[]') and e.get('obj') is not None and strip_casts(e['obj']).get('d') == fparam['d']:
+                key = show(strip_conv(e['args'][0]))
+                okx = guarded(gg, evx, lambda c: is_call(c, '::contains') and show(c) == '%s.contains(%s)' % (fparam['name'], key), True)
+                I1.check(okx, '%s: %s[%s]' % (fq, fparam['name'], key), 'subscript (which would create the file) only under %s.contains(%s)' % (fparam['name'], key),
+                         'std::map::operator[] creates an empty file named %s when it is absent: the missing file is neither reported nor requested' % key,
+                         '%s:%d' % (os.path.relpath(fn_['file'], sfacts.repo), e['loc'][0]))
     I2 = rep.rule('C15.I2', 'an include that is not followed by a quoted name is reported', floor=1)
     ev = err_pushes('EXPECTED_FILENAME')
     ok = False
